@@ -229,7 +229,8 @@ func (ho *HistoryObs) Sexp(h *History, useed uint64, sets []OptionSet) string {
 		sb.WriteString(" (run " + common.QS(o.String()))
 		for _, r := range runs {
 			sb.WriteString(" (rs " + common.B(r.O.CacheHit) + " " + RespTree(r.O).Sexp() + " " + digests(r.O.SortedReqKeys()) + " " +
-				digests(r.FreshSame.SortedReqKeys()) + " " + digests(r.O.Pairs) + " " + RespTree(r.FreshSame).Sexp() + ")")
+				digests(r.FreshSame.SortedReqKeys()) + " " + digests(r.O.Pairs) + " " + RespTree(r.FreshSame).Sexp() + " " +
+				digests(r.O.SortedExpandedReqKeys()) + " " + digests(r.FreshSame.SortedExpandedReqKeys()) + ")")
 		}
 		sb.WriteString(")")
 	}
